@@ -493,6 +493,11 @@ def _origin(rnd, p):
     return "centroid", np.array([c.x, c.y]), "centroid"
 
 
+def relation_traces(tdgl, args, tmp):
+    """Worker entry point: a batch of relation traces (seeds)."""
+    return [relation_trace(tdgl, dict(seed=s, transforms=args.get("transforms", 3)), tmp) for s in args["seeds"]]
+
+
 def relation_trace(tdgl, args, tmp):
     """One relation trace: a random shape, a transform (any angle / factors in halves / any origin),
     a copy that is mutated, a set operation with a second shape, a device with holes."""
